@@ -206,7 +206,9 @@ impl LogStore for RocksDBLogStore {
             .map_err(|e| StorageError::DbError(e.to_string()))?;
 
         if max_index > 0 {
-            self.last_index.store(max_index, Ordering::SeqCst);
+            // A batch may rewrite lower indexes while higher ones stay stored: never move backwards
+            // here (truncate / replace_range / reset are the operations that lower the last index).
+            self.last_index.fetch_max(max_index, Ordering::SeqCst);
         }
 
         Ok(())
